@@ -38,22 +38,21 @@ void h_pvq_recurrence(void)
    CANARY("after recurrence");
 }
 
-/* Bijection on a bounded grid (class B): decoding any index below V(N,K) gives a vector with exactly K pulses that
-   encodes back to that index.  N, K, index all symbolic inside the bound. */
-#ifndef VERIF_PVQ_NMAX
-#define VERIF_PVQ_NMAX 5
+/* Bijection for one concrete (N,K) (class B: the grid of pairs is sampled, each pair is exhaustive in the index):
+   decoding any index below V(N,K) gives a vector with exactly K pulses that encodes back to that index. */
+#ifndef VERIF_PVQ_N
+#define VERIF_PVQ_N 3
 #endif
-#ifndef VERIF_PVQ_KMAX
-#define VERIF_PVQ_KMAX 6
+#ifndef VERIF_PVQ_K
+#define VERIF_PVQ_K 3
 #endif
 void h_pvq_bijection(void)
 {
-   int n = nondet_int(), k = nondet_int(), y[VERIF_PVQ_NMAX], j, sum = 0; opus_uint32 i = nondet_uint(), v, back;
-   __CPROVER_assume(2 <= n && n <= VERIF_PVQ_NMAX && 1 <= k && k <= VERIF_PVQ_KMAX);
+   const int n = VERIF_PVQ_N, k = VERIF_PVQ_K; int y[VERIF_PVQ_N], j, sum = 0; opus_uint32 i = nondet_uint(), v, back;
    v = CELT_PVQ_V(n, k);
    __CPROVER_assume(i < v);
    cwrsi(n, k, i, y);
-   for (j = 0; j < VERIF_PVQ_NMAX; j++) if (j < n) sum += y[j] < 0 ? -y[j] : y[j];
+   for (j = 0; j < VERIF_PVQ_N; j++) sum += y[j] < 0 ? -y[j] : y[j];
    __CPROVER_assert(sum == k, "decoded vector has exactly K pulses");
    back = icwrs(n, y);
    __CPROVER_assert(back == i, "icwrs(cwrsi(i)) == i");
